@@ -17,6 +17,10 @@ validated-input: execution / introspection cycles that only run on Valid<Executa
 total nesting validation has already bounded.  A cycle that crosses definitions (its depth is the
 sum over a chain of definitions, not one AST's depth) without a counting guard is reported: a
 visited set only bounds how many definitions are entered, not how deep the stack gets.
+C21.LIMIT: those guards bound depth only if their limit is a compile-time constant within the
+confirmed envelope (<= 1000; the tree's maximum is 500): every construction of DepthCounter /
+RecursionStack, the only writer of `limit` (with_limit), every with_limit / LimitTracker::new call
+site, and the refusal test `count > limit -> Err` in increment / push are checked.
 C21.SORT: a DiagnosticList leaves the crate only through into_result / into_result_with /
 into_valid_result / merge, each of which sorts the non-empty list; sort is a stable sort_by_key on
 (file id, offset).  C21.INV (thorough): reviewed inventory of panic-capable sites.
@@ -180,8 +184,131 @@ def rule_sort(prog, rep):
             rep.finding("C21.SORT", fn.name, "unsorted-exit", "public function returns a DiagnosticList/WithErrors that does not come from into_result*/merge (unsorted diagnostics can escape)", fn.loc())
 
 
+# the largest recursion limit confirmed on the pinned tree is 500 (DepthCounter in operation /
+# variable validation, exercised by the repository's own deep-nesting tests); a limit that is not
+# a compile-time constant, or a constant far outside that envelope, bounds nothing
+LIMIT_BOUND = 1000
+GUARD_ADTS = ("DepthCounter", "RecursionStack")
+
+
+def _const_int(fn, op):
+    from ..core import op_const
+
+    c = op_const(op)
+    if c is None:
+        l = op_local(op)
+        sd = fn.single_def(l) if l is not None else None
+        if sd and sd[2][0] == "use":
+            return _const_int(fn, sd[2][1])
+        return None
+    ex = c[2] if len(c) > 2 else {}
+    if "int" in ex:
+        try:
+            return int(ex["int"])
+        except ValueError:
+            return None
+    m = re.match(r"^(\d+)_?usize$", str(c[1]))
+    return int(m.group(1)) if m else None
+
+
+def rule_limit(prog, rep):
+    """C21.LIMIT: the counting guards of C21.CUT bound depth only if their limit is a small
+    compile-time constant and the guard refuses at `count > limit`."""
+    rep.floor("C21.LIMIT", 13)
+    from ..tables import enum_paths, return_value_on_path
+    from ..flow import _strip
+
+    # (1) every write of a `limit` field of a guard ADT
+    writers = {}
+    for fn in prog.fns.values():
+        if fn.crate != "apollo_compiler":
+            continue
+        for b in fn.live_blocks():
+            for s in fn.stmts(b):
+                if s[0] != "=":
+                    continue
+                # field assignment `x.limit = v`
+                proj = s[1][1]
+                if proj and isinstance(proj[-1], list) and proj[-1][0] == "f" and proj[-1][2] == "limit":
+                    base_ty = fn.local_ty(s[1][0])
+                    if any(g in base_ty for g in GUARD_ADTS):
+                        writers.setdefault(fn.uid, []).append(("assign", s, b))
+                if s[2][0] == "agg" and isinstance(s[2][1], list) and s[2][1][0] == "adt" and s[2][1][1].split("::")[-1] in GUARD_ADTS:
+                    writers.setdefault(fn.uid, []).append(("agg", s, b))
+    for uid, ws in sorted(writers.items()):
+        fn = prog.fns[uid]
+        for kind, s, b in ws:
+            if kind == "agg":
+                ops = s[2][2]
+                v = None
+                for nm, op in zip(s[2][1][3], ops):
+                    if nm == "limit":
+                        v = _const_int(fn, op)
+                ok = v is not None and 0 < v <= LIMIT_BOUND
+                rep.obligation(ok)
+                if ok:
+                    rep.instance("C21.LIMIT", "%s constructs %s with constant limit %d" % (fn.name.replace("apollo_compiler::", ""), s[2][1][1].split("::")[-1], v))
+                else:
+                    rep.finding("C21.LIMIT", fn.name, "ctor-limit", "a recursion guard is constructed with a limit that is not a compile-time constant <= %d (%s): recursion depth is then not bounded" % (LIMIT_BOUND, v), fn.loc(s[3][0]))
+            else:
+                ok = re.search(r"::(DepthCounter|RecursionStack)::with_limit$", fn.name) and fn.sym(s[2][1] if s[2][0] == "use" else s[2]) == "arg2"
+                rep.obligation(bool(ok))
+                if ok:
+                    rep.instance("C21.LIMIT", "%s is the only field writer (limit = its argument)" % fn.name.replace("apollo_compiler::", ""))
+                else:
+                    rep.finding("C21.LIMIT", fn.name, "limit-writer", "the limit of a recursion guard is written outside with_limit()", fn.loc(s[3][0]))
+    # (2) every call of with_limit / LimitTracker::new in the crate passes a small constant
+    n = 0
+    for fn in sorted(prog.fns.values(), key=lambda f: f.name):
+        if fn.crate != "apollo_compiler":
+            continue
+        for c in fn.live_calls():
+            if re.search(r"validation::(DepthCounter|RecursionStack)::with_limit$", c.name):
+                arg = c.args[1]
+            elif re.search(r"apollo_parser::LimitTracker::new$|limit::LimitTracker::new$", c.name):
+                arg = c.args[0]
+            else:
+                continue
+            v = _const_int(fn, arg)
+            ok = v is not None and 0 < v <= LIMIT_BOUND
+            rep.obligation(ok)
+            n += 1
+            if ok:
+                rep.instance("C21.LIMIT", "%s: %s(%d)" % (fn.name.replace("apollo_compiler::", ""), "::".join(c.name.split("::")[-2:]), v))
+            else:
+                rep.finding("C21.LIMIT", fn.name, "call-limit:" + "::".join(c.name.split("::")[-2:]),
+                            "recursion limit %s is %s: a limit computed at run time (or far above the confirmed maximum of 500) does not bound stack depth, so a long enough chain of definitions overflows the stack instead of producing a recursion-limit diagnostic" % (
+                                fn.sym(arg), "not a compile-time constant" if v is None else "the constant %d > %d" % (v, LIMIT_BOUND)), c.loc())
+    # (3) the guards refuse when count > limit
+    for pat, count_re in [
+        (r"^apollo_compiler::validation::DepthGuard::<'_>::increment$", r"^arg1\.0\.value$"),
+        (r"^apollo_compiler::validation::RecursionGuard::<'_>::push$", r"^call:indexmap::IndexSet::<T, S>::len@\d+$"),
+    ]:
+        fn = prog.fn(pat)
+        rows = 0
+        for atoms, rb, path in enum_paths(fn):
+            cm = [f for f in _strip(atoms) if f[0] == "cmp"]
+            leaf = return_value_on_path(fn, path) or ""
+            if len(cm) != 1:
+                rep.finding("C21.LIMIT", fn.name, "no-compare", "a path through the guard does not compare the count with the limit (returns %s)" % leaf, fn.loc())
+                continue
+            _k, op, a, b, val = cm[0]
+            if not (re.search(count_re, a) and b == "arg1.0.limit" and op in ("Gt", "Ge")):
+                rep.fail("UNDECIDED rule=C21.LIMIT %s compares `%s %s %s` (idiom not recognised)" % (fn.name, a, op, b))
+                continue
+            want = "Err" if val else "Ok"
+            ok = leaf.startswith("Result::%s{" % want)
+            rep.obligation(ok)
+            rows += 1
+            if not ok:
+                rep.finding("C21.LIMIT", fn.name, "refuse:%s" % val, "with count %s limit = %s the guard returns %s" % (op, val, leaf), fn.loc())
+        if rows == 2:
+            rep.instance("C21.LIMIT", "%s: Err iff count > limit" % fn.name.replace("apollo_compiler::", ""))
+
+
 def run(prog, rep):
     rule_cut(prog, rep)
+    rule_limit(prog, rep)
     rule_sort(prog, rep)
     if rep.tier == "thorough":
         from . import inv_compiler
